@@ -6,6 +6,7 @@ from ..gtlib import cq, cvec, cmat, cb3, cbool, cseq, cints, cnats, jarr, Obs, V
 from . import common as C, lin
 
 PROP = "C18"
+WIDEN_MAX = 24          # extra thorough-generator cases when the anchored sources have drifted (harness/drift.py)
 PROPS_FILE = "props/C18.v"
 RULE = ("cases = (a) pipelines built from public operations (product with general / rank-one factor and integrals; "
         "marginal + conditioning; joint, marginal and conditional transformation; likelihood factors, product, normalise; "
